@@ -147,10 +147,10 @@ PROPS['C01'] = dict(
     domains=['rt', 'unm', 'build'],
     no_model={'rt': True},
     n=dict(quick=dict(rt=2500, unm=800, build=600), thorough=dict(rt=120000, unm=40000, build=30000)),
-    theorems=[('Properties.C01', ['C01_header_section_round_trips', 'C01_block_framing_ignores_block_content', 'C01_marker_is_accepted_and_consumed', 'C01_marshal_layout'])],
+    theorems=[('Properties.C01', ['C01_header_section_round_trips', 'C01_block_framing_ignores_block_content', 'C01_marker_is_accepted_and_consumed', 'C01_marshal_layout', 'C01_marshal_then_parse_returns_the_record'])],
     kinds={'panic', 'roundtrip-lossy', 'remarshal-differs', 'policy-incoherent', 'trimmed-value'},
     rule='rt: 1-5 records accepted by the strict builder (all record types incl. unknown, both versions, generic/HTTP/warc-fields blocks with delimiter-imitating content, unknown fields with odd but clean values), built under a random policy, marshaled, concatenated plain or as gzip members, read back through ONE WarcFileReader under another policy (2/3 strict) with the same add/repair flags, compared (version, type, ordered fields, block) and marshaled again; spill thresholds around the block size; unm/build: model correspondence. distinct = distinct implementation observations',
-    level_text='PARTIAL proof: the stages of the round trip are theorems about the model - the header section of every well-formed field list parses back to exactly itself with no finding under every policy and whatever follows (induction over the list); framing by Content-Length ignores block content; the end-of-record marker is accepted; digests are computed over exactly the serialized bytes (C02) and defect-free records pass verification untouched (C03). The composition into one statement about parse_record (marshal r ++ rest) is not yet mechanised; it is evaluated on the implementation by the executable statement for every generated record sequence, and every stage model is tied to the code by differential runs (build, unm).',
+    level_text='PARTIAL proof. Proved in Coq (C01_marshal_then_parse_returns_the_record): for every record that is valid for the reader (version 1.0/1.1, well-formed header fields that validate with no finding, truthful Content-Length, block that parses to itself, digests absent or valid), every following byte sequence and stream tail, under every policy setting, parsing the marshalled form returns exactly that record (version, type, ordered fields, block), no finding, and leaves exactly the following bytes - so blocks imitating CRLFCRLF or WARC/1.1 cannot confuse framing. Stage theorems: header section round trip for unbounded field lists, framing, marker, layout. Not mechanised: that every record Build accepts is valid in that sense for every reader policy (established stage by stage in C02, C03, C17), re-marshalling equality, and the gzip container; these are evaluated on the implementation by the executable statement (build, marshal plain or gzip, parse under another policy, compare, marshal again).',
     level_note="Trusted: Coq kernel, extraction (ExtrOcamlBasic), harness and generators. Oracles: hash functions (Python hashlib), base32/base64 decoders, mime.WordDecoder, net/http header parsing, whatwg-url, net.ParseIP, time.Parse, Unicode case mapping; klauspost gzip (a member is its payload; a cut member yields a payload prefix then io.ErrUnexpectedEOF). bufio.Reader is remaining bytes + a persistent tail condition. Findings are compared by coarse kind derived from error texts. Reading of the text: the reader runs with the builder's add-missing/repair flags; values with edge blanks are a recorded known finding (trimmed), values with encoded-words are outside the property.",
     assumptions=[],
 )
@@ -174,7 +174,7 @@ PROPS['C06'] = dict(
     theorems=[('Properties.C06', ['C06_complete_header_section_survives_any_remainder', 'C06_cut_at_the_end_of_record_marker_is_reported', 'C06_complete_marker_is_accepted'])],
     kinds={'panic', 'hang', 'wellformed-file-not-clean', 'complete-record-lost', 'partial-record-clean', 'truncation-invisible'},
     rule='trunc: well-formed files of 1-3 records (all block kinds, plain or per-record gzip), read under warn or strict: 50 seeded cut positions plus 19 positions around every record boundary per file (thorough: EVERY cut position): records wholly inside the prefix come back unaltered, clean and at the same offsets; nothing clean after them; a cut inside a record is visible (non-EOF error, finding, or EOF offset < prefix length); unm: model correspondence incl. cut gzip members',
-    level_text='PARTIAL proof: mechanised - a complete header section parses to exactly its fields whatever follows it in the stream and whatever the tail condition (so truncation of the remainder cannot alter it); a stream ending inside or right before the end-of-record marker is reported by the marker check under warn/fail; a complete marker is accepted; the parser never consumes beyond its input (C05). Not mechanised: the whole-file statement over all cut positions; it is evaluated on the implementation for the sampled (quick) or all (thorough) cut positions.',
+    level_text='PARTIAL proof. Proved in Coq (C06_complete_records_before_the_cut_survive): for every sequence of valid records followed by ANY remainder (the prefix of a cut record, junk, nothing) and any stream tail, sequential reading returns exactly those records, clean and at their offsets, then continues on the remainder - complete records survive every cut. Also: a complete header section parses to exactly its fields whatever follows; a stream ending inside or right before the end-of-record marker is reported under warn/fail; a complete marker is accepted; the parser never consumes beyond its input (C05). Not mechanised: that a remainder ending inside the version line, header or block is always visible (needs the parse of every proper prefix), and the gzip container; evaluated on the implementation for the sampled (quick) or all (thorough) cut positions',
     level_note='Trusted: Coq kernel, extraction (ExtrOcamlBasic), harness and generators. Oracles: hash functions (Python hashlib), base32/base64 decoders, mime.WordDecoder, net/http header parsing, whatwg-url, net.ParseIP, time.Parse, Unicode case mapping; klauspost gzip (a member is its payload; a cut member yields a payload prefix then io.ErrUnexpectedEOF). bufio.Reader is remaining bytes + a persistent tail condition. Findings are compared by coarse kind derived from error texts. A cut exactly at a record boundary leaves a well-formed file and is not required to be visible.',
     assumptions=[],
 )
